@@ -355,25 +355,37 @@ func genVal(t *rapid.T, td *TD, malP int, quirk string) Val {
 	return v
 }
 
-// genLatin draws PrintableString content octets that are not PrintableString characters.
+// Octet classes for PrintableString contents in the lax sub-property.
+var latinClasses = []func(t *rapid.T) byte{
+	func(t *rapid.T) byte { return printableChars[rapid.IntRange(0, len(printableChars)-1).Draw(t, "lp")] }, // PrintableString set
+	func(t *rapid.T) byte { return rapid.ByteRange(0x21, 0x7e).Draw(t, "la") },                              // any visible ASCII (incl. T.61-invalid # $ \ ^ ` { } ~)
+	func(t *rapid.T) byte { return rapid.ByteRange(0x01, 0x1f).Draw(t, "lc") },                              // C0 controls
+	func(t *rapid.T) byte { return 0x7f },
+	func(t *rapid.T) byte { return rapid.ByteRange(0x80, 0x9f).Draw(t, "lc1") }, // C1 controls
+	func(t *rapid.T) byte { return rapid.ByteRange(0xa0, 0xfe).Draw(t, "lh") },  // high half (T.61-valid and -invalid)
+	func(t *rapid.T) byte { return 0xff },
+	func(t *rapid.T) byte { return 0x00 },
+}
+
+// genLatin draws PrintableString content octets from a mixture of 1-4 octet classes (the result may be a valid
+// PrintableString, ISO 8859-1 text, T.61 text or neither; classifyLatin decides which).
 func genLatin(t *rapid.T) []byte {
+	nc := rapid.IntRange(1, 4).Draw(t, "latinclasses")
+	cls := make([]int, nc)
+	for i := range cls {
+		cls[i] = rapid.IntRange(0, len(latinClasses)-1).Draw(t, "latinclass")
+	}
 	n := rapid.IntRange(1, 8).Draw(t, "latinlen")
-	mode := rapid.IntRange(0, 9).Draw(t, "latinmode")
+	if n < nc {
+		n = nc
+	}
 	out := make([]byte, n)
 	for i := range out {
-		out[i] = "abcXYZ "[rapid.IntRange(0, 6).Draw(t, "lch")]
-	}
-	pos := rapid.IntRange(0, n-1).Draw(t, "latinpos")
-	switch {
-	case mode < 6: // ISO 8859-1 text
-		out[pos] = rapid.SampledFrom([]byte{0xe9, 0xa0, 0xff, 0xc0, 0xdf, '@', '#', '_', '~', '!', '"', ';', 0xfc}).Draw(t, "latinb")
-		if n > 1 && rapid.Bool().Draw(t, "latin2") {
-			out[(pos+1)%n] = rapid.ByteRange(0xa0, 0xff).Draw(t, "latinb2")
+		c := cls[i%nc] // every chosen class appears at least once
+		if i >= nc {
+			c = cls[rapid.IntRange(0, nc-1).Draw(t, "latinpick")]
 		}
-	case mode < 9: // control characters: not ISO 8859-1; T.61 by the fork's reading
-		out[pos] = rapid.SampledFrom([]byte{0x01, 0x09, 0x0a, 0x1b, 0x1f, 0x7f, 0x80, 0x9f}).Draw(t, "ctlb")
-	default: // NUL: must stay rejected
-		out[pos] = 0
+		out[i] = latinClasses[c](t)
 	}
 	return out
 }
